@@ -8,6 +8,7 @@ import (
 	"github.com/f1bonacc1/process-compose/src/types"
 	"github.com/rs/zerolog/log"
 	"net/http"
+	neturl "net/url"
 	"sort"
 )
 
@@ -43,7 +44,7 @@ func (p *PcClient) GetRemoteProcessesState() (*types.ProcessesState, error) {
 }
 
 func (p *PcClient) getProcessState(name string) (*types.ProcessState, error) {
-	url := fmt.Sprintf("http://%s/process/%s", p.address, name)
+	url := fmt.Sprintf("http://%s/process/%s", p.address, neturl.PathEscape(name))
 	resp, err := p.client.Get(url)
 	if err != nil {
 		return nil, err
@@ -69,7 +70,7 @@ func (p *PcClient) getProcessState(name string) (*types.ProcessState, error) {
 }
 
 func (p *PcClient) getProcessInfo(name string) (*types.ProcessConfig, error) {
-	url := fmt.Sprintf("http://%s/process/info/%s", p.address, name)
+	url := fmt.Sprintf("http://%s/process/info/%s", p.address, neturl.PathEscape(name))
 	resp, err := p.client.Get(url)
 	if err != nil {
 		return nil, err
@@ -95,7 +96,7 @@ func (p *PcClient) getProcessInfo(name string) (*types.ProcessConfig, error) {
 }
 
 func (p *PcClient) getProcessPorts(name string) (*types.ProcessPorts, error) {
-	url := fmt.Sprintf("http://%s/process/ports/%s", p.address, name)
+	url := fmt.Sprintf("http://%s/process/ports/%s", p.address, neturl.PathEscape(name))
 	resp, err := p.client.Get(url)
 	if err != nil {
 		return nil, err
